@@ -89,6 +89,7 @@ def _real_values():
         (1, 2, 127), (1, 2, 128), (1, 2, -128), (1, 2, -129), (1, 2, 32767), (1, 2, 32768),
         (1, 2, -32768), (1, 2, -32769), (1, 2, 8388607), (1, 2, 8388608), (1, 2, -8388609),
         (2 ** 60 + 1, 2, -10), (-(2 ** 64 + 3), 2, 5), (65535, 2, -16),
+        (1, 2, 400), (3, 2, 1000), (1, 2, 1023), (-7, 2, 310), (5, 2, -1000),
         (1, 10, 0), (-3, 10, 2), (125, 10, -2), (5, 10, -1), (123, 10, 10), (-75, 10, -3), (-123, 10, 1), (12, 10, 1),
     ]
 
@@ -117,7 +118,9 @@ def _any_values():
     return [bytes.fromhex(h) for h in (
         '020105', '0400', '0500', '3003020101', '3000', 'a003020101', '1f8101020104',
         '308002010100 00'.replace(' ', ''), '2480040161040162 0000'.replace(' ', ''),
-        '04820100' + '41' * 256)]
+        '04820100' + '41' * 256,
+        # indefinite-length TLVs under long-form identifiers (tag numbers 31, 128) and a nested one
+        'bf1f800201050000', 'bf8100800401610000', '7f1f80bf1f80050000000000', 'bf1f8004036162630201050000')]
 
 
 def leaf_types():
@@ -213,6 +216,12 @@ def BIG(tier='quick'):
     # length-octet boundaries for containers
     for n in (126, 127, 128, 255, 256):
         yield ('SEQOF', NULL), [None] * ((n + 1) // 2)
+    # wide but shallow values: hundreds of constructed members / constructed strings in one encoding (every one
+    # of them brings its own end-of-octets in indefinite mode)
+    yield ('SEQOF', ('SEQ', ())), [{}] * 150
+    yield ('SEQOF', ('SEQOF', INT)), [[1], []] * 130
+    yield ('SETOF', OCTS), [bytes([65 + (i % 26), 66 + (i % 7)]) for i in range(150)]
+    yield ('SEQOF', E(2, ('CHOICE', (('a', I(0, INT)), ('s', I(1, OCTS)))))), [('a', 1), ('s', b'xy')] * 60
     if tier != 'quick':
         yield ('SEQOF', INT), list(range(21846))          # contents 65535+ octets region
         yield ('SEQOF', OCTS), [b'x' * 300] * 220
@@ -403,6 +412,12 @@ def CH(tier='quick'):
         TT = E(40, T, 'A')
         for v in itertools.islice(choice_values(T), 1):
             yield TT, v
+        # the CHOICE's own explicit tag re-used by one of its alternatives one level down (legal ASN.1)
+        for num in (0, 1, 2):
+            TT = E(num, T)
+            if M.legal(TT):
+                for v in itertools.islice(choice_values(T), 4):
+                    yield TT, v
     # nested and explicitly tagged CHOICE alternatives inside containers that locate components by tag
     inner = ('CHOICE', (('p', I(5, INT)), ('q', I(6, BOOL))))
     deep = [('CHOICE', (('x', INT), ('n', inner))),
@@ -489,7 +504,12 @@ def NEST(tier='quick'):
         ('SET', (('s', ('SETOF', INT), 'R', None), ('p', STR('PrintableString'), 'O', None), ('u', STR('UTCTime'), 'R', None))),
         ('SET', (('a', E(5, OCTS), 'R', None), ('b', I(6, BOOL), 'R', None), ('c', E(7, INT), 'O', None))),
         ('SEQ', (('w', ('SET', (('x', E(2, BOOL), 'R', None), ('y', I(3, OCTS), 'R', None))), 'R', None), ('z', INT, 'O', None))),
-        # an untagged CHOICE nested in an untagged CHOICE member: placed by the alternative chosen (DER) /
+        # tag numbers on both sides of 31, 64, 128 and class boundaries in one SET
+        ('SET', (('a', I(64, INT, 'A'), 'R', None), ('b', I(1, INT, 'A'), 'R', None))),
+        ('SET', (('a', I(128, INT), 'R', None), ('b', I(1, INT), 'R', None), ('c', E(64, OCTS), 'O', None))),
+        ('SET', (('a', I(5, INT), 'R', None), ('b', I(200, INT, 'A'), 'R', None), ('c', I(31, BOOL, 'P'), 'R', None))),
+        # (placeholder)
+    # an untagged CHOICE nested in an untagged CHOICE member: placed by the alternative chosen (DER) /
         # the smallest alternative (CER)
         ('SET', (('c', ('CHOICE', (('n', ('CHOICE', (('i', INT), ('o', OCTS)))), ('r', UTF8))), 'R', None),
                  ('b', BOOL, 'R', None), ('u', NULL, 'R', None))),
